@@ -55,6 +55,56 @@ CLAIMED = {
          "azimuthal objects and by the limits/operator bridge; permutation and rescaling invariance are checked on the implementation (not proved).",
     note="Trusted: float rounding at zero guards / convergence limits / bounds (such runs are detected from the implementation's own trace, skipped and counted); permutation and scale invariance are tests.",
     technique="Lean 4 theorems (loop invariant) + differential correspondence with trace + table bridge", design="5/C06"),
+ "C09": dict(
+    text="Theorems: store semantics of a processing path (M-HEAP): a path whose writes go only to buffers it allocated leaves every caller buffer unchanged (induction over the effect "
+         "list); taper-a-copy satisfies the hypothesis, taper-in-place does not (witness); process is repeatable with the same settings object whenever the stored FFT state is a fixed point "
+         "of prepare_fft_settings (every state but {n: None}). Tied to the code by bit-level snapshots of every recording before/after process for every family, shares_memory probes, "
+         "repeated/interleaved runs, in-place tampering with recordings and settings afterwards, and the FFT-state correspondence.",
+    note="Known finding C09-c ({n: None} is not a fixed point) is reported as KNOWN-FINDING. The effect lists are a hand-written abstraction of the six paths; the snapshots are what ties them to the code.",
+    technique="Lean 4 theorems (heap non-interference, fixed point) + snapshot correspondence", design="5/C09"),
+ "C10": dict(
+    text="Theorems: split loop = closed form xs[jk : jk+k+1]; starts, overlap, content, lengths, tail, errors; exact-rational interval count; three components share the tiling; "
+         "preprocess = detrend-each . split . filter . orient for arbitrary filter, with witnesses that other orders differ. Tied to the code by ramp-signal splits vs the exact spec and the float "
+         "recipe, run-time op traces of hvsrpy.preprocess, and a scipy oracle in the documented order.",
+    note="Trusted: scipy butter/sosfiltfilt/detrend (filter is an arbitrary function in the theorems).",
+    technique="Lean 4 theorems (list/omega) + differential correspondence + op-trace", design="5/C10"),
+ "C12": dict(
+    text="Theorems: the reader's run-length grouping inverts the writer's azimuth labelling (non-empty runs, adjacent labels distinct; both necessary), read(write s) = s for every reachable "
+         "traditional object (uses C08's peaks-track-range invariant) and for azimuthal objects, derived columns are those of the object written. Tied to the code by histories -> write -> "
+         "independent parse -> read back (bit-for-bit curves, masks, range, peaks, every statistic), by the model replaying the history and the round trip, and by the label/regex bridge.",
+    note="Trusted: %.18e/json/loadtxt are identity on doubles (checked bit for bit), float repr of azimuth labels.",
+    technique="Lean 4 theorems (round trip via invariant) + differential correspondence + bridge", design="5/C12"),
+ "C13": dict(
+    text="Theorems: returned list = selected windows (sublist, same order); mask entry i is the decision for window i alone; component passes iff all ratios in [lo, hi]; widening limits is "
+         "monotone; several components = conjunction; ratios invariant under rescaling; maximum-value keeps iff max |sample| < threshold. Tied to the code by identity/order of returned objects, "
+         "masks on every azimuth, decisions vs the model (exact-rational point counts), metamorphic probes and the comparison-operator bridge.",
+    note="Trusted: Python float floor division semantics (mirrored exactly over Rat); ratios within 1e-9 of a limit are near ties.",
+    technique="Lean 4 theorems + differential correspondence + operator bridge", design="5/C13"),
+ "C14": dict(
+    text="Theorems: weighted statistics are the textbook estimators, invariant under weight scaling; Monte-Carlo statistics = statistics of the realisations, zero-sigma closed forms for the four "
+         "distribution pairs; nearer-sensor = clip half-plane, clip soundness, cell subset of hull and region, shoelace area and the whole weight pipeline invariant under translation and uniform scaling; "
+         "retained-index specification. Tied to the code by an exact-rational Voronoi model vs Qhull/GEOS (weights, indices, cells) and seeded Monte-Carlo runs.",
+    note="PARTIAL: cell completeness (cell contains region), w >= 0 and sum w = 1 are not proved; they are checked exactly in Q on every generated layout (a test). Trusted: Qhull, GEOS, numpy Generator. Domain <= 1e4 x extent.",
+    technique="Lean 4 theorems + exact-rational differential correspondence", design="5/C14"),
+ "C17": dict(
+    text="Theorems: the model's real DFT is the complex DFT of the zero-padded series (bridge to roots of unity), Parseval over all n bins, conjugate symmetry, hence the one-sided identity "
+         "2*sum_{0<k<n/2}|X_k|^2 = n*sum x^2 - |X_0|^2 - |X_{n/2}|^2 and psd_parseval with the code's scaling (2/(U L fs)); c^2 scaling; diffuse field = sqrt(S(Pns+Pew)/S(Pvt)) by construction. "
+         "Tied to the code by PSD and diffuse-field process vs the model (even/odd lengths, smoothing on/off, Welch windows), a Parseval/scale/Welch probe on the implementation and PSD-preprocessing "
+         "transforms (differentiate, flat response) vs the model's DFT pair at n = 32768.",
+    note="PARTIAL: Welch averaging and the DFT-inversion clause (flat response = (x - sum/n)/S, derivative) are correspondence/numerical only. Trusted: scipy.signal.freqs for pole-zero responses.",
+    technique="Lean 4 theorems (Parseval from root-of-unity orthogonality) + differential correspondence", design="5/C17"),
+ "C18": dict(
+    text="Theorems: invariants of the recording state machine over all op histories (equal lengths, 0 <= deg < 360, well-formed meta); load(save r) = r after any history; copy constructors, "
+         "split windows and stored components allocate fresh buffers (writes invisible to the other side), with trim-keeps-a-view as positive control; trim keeps exactly nearest(start)..nearest(end) and its three refusals. "
+         "Tied to the code by op histories + save/load (bit for bit), aliasing probes and the trim seam.",
+    note="Trusted: Python json float repr. meta tuples become lists on load (content equal; documented).",
+    technique="Lean 4 theorems (induction over op histories, location model) + differential correspondence", design="5/C18"),
+ "C19": dict(
+    text="Theorems: nextpow2 terminates with the minimal power; prepareFft never truncates and is idempotent iff state != {n: None}; chunks partition the task list; with fresh settings per task, for ALL "
+         "batches, orders, nproc and chunk-to-worker assignments the output for f is alone(f); with shared settings there is a concrete counterexample (the repaired defect). Tied to the code by the real CLI "
+         "in subprocesses vs the in-process pipeline byte for byte, FFT length in the CSV header vs the model, observed chunking vs the model.",
+    note="Trusted: CPython Pool (which process runs which chunk, pickling), click. Assumes distinct file stems in a batch (same-stem collision is recorded as known finding C19-b).",
+    technique="Lean 4 theorems (induction over chunk lists) + CLI differential correspondence", design="5/C19"),
  "C11": dict(
     text="Theorems: Cheng weights are positive, one per accepted window and sum to 1; zero count is refused; single azimuth reduces to the traditional mean and the Cheng denominator "
          "to (N-1)/N; model tied to the code by azimuthal histories with unequal acceptance (all statistics, both distributions) and probes (order of azimuths, mean of means, cov diagonal, pooled reduction).",
@@ -80,7 +130,7 @@ for pid in ids:
         ))
 manifest = dict(
     version=1,
-    setup_cmd="cd lean && lake build HvsrVerif hvsrdrv",
+    setup_cmd="cd lean && lake build HvsrVerif hvsrdrv drv_c10 drv_c14 drv_c19",
     hooks=dict(guard="HVSRPY_VERIF", enable="HVSRPY_VERIF=1 (set by the harness; no source hooks are needed)",
                baseline_off_cmd="cd /repo && /venv/bin/python -m pytest -ra -q -p no:cacheprovider --timeout=900 --continue-on-collection-errors",
                source_commits=[], add_only=True),
